@@ -889,13 +889,9 @@ class PhpR(Renderer):
             self.emit(1, f"public ${FIELDS[0]};")
             self.emit(1, f"public ${FIELDS[1]};")
             if "rec-methods" in prog.features:
-                # (a property initialiser `public $fc = 5;` is lowered by the PHP frontend to an assignment to a local
-                # variable $fc, not to a field write: the PHP rendering initialises the field in the constructor)
                 self.emit(1, "public static $made = 0;")
-                self.emit(1, "public $fc;")
-                self.emit(1, f"function __construct($a, $b) {{ $this->{FIELDS[0]} = $a; $this->{FIELDS[1]} = $b; $this->fc = 5; }}")
-            else:
-                self.emit(1, f"function __construct($a, $b) {{ $this->{FIELDS[0]} = $a; $this->{FIELDS[1]} = $b; }}")
+                self.emit(1, "public $fc = 5;")
+            self.emit(1, f"function __construct($a, $b) {{ $this->{FIELDS[0]} = $a; $this->{FIELDS[1]} = $b; }}")
             if "rec-methods" in prog.features:
                 self.emit(1, f"function total() {{ return (($this->{FIELDS[0]} + $this->{FIELDS[1]}) + $this->fc); }}")
                 self.emit(1, "function selfarea() { return area($this); }")
